@@ -21,18 +21,15 @@ NOTES = ("Every check is solver-based (DESIGN.md): Engine K = Kani/CBMC over the
 NOT_APPLICABLE = {
     "C01": "not built yet (Engine S, see DESIGN.md section 5)",
     "C02": "not built yet (Engine S, see DESIGN.md section 5)",
-    "C04": "harnesses under construction (not yet registered)",
     "C07": "not built yet",
     "C08": "not built yet",
     "C09": "not built yet",
     "C10": "harnesses under construction (not yet registered)",
     "C12": "harnesses under construction (not yet registered)",
     "C13": "harnesses under construction (not yet registered)",
-    "C14": "under construction",
     "C15": "not built yet",
     "C16": "not built yet",
     "C17": "not built yet",
-    "C18": "harnesses under construction (not yet registered)",
     "C19": "harnesses under construction (not yet registered)",
     "C20": "harnesses under construction (not yet registered)",
 }
